@@ -584,7 +584,7 @@ func closedByShutdown(c hCase, run hRun) int {
 	}
 	for i, s := range run.steps {
 		if i+1 >= c.ShutdownAt && s.Closed {
-			if len(s.Replies) == 0 || (len(s.Replies) == 1 && s.Replies[0].Code == 421) {
+			if n := len(s.Replies); n == 0 || s.Replies[n-1].Code == 421 {
 				return i
 			}
 			return -1
